@@ -1,8 +1,79 @@
 import NetaddrVerif.Model.Proto
-/-! Driver ops of property C12 (stub: filled in by the property's model). -/
+import NetaddrVerif.Model.ComparePickle
+/-! Driver ops of property C12.
+  `cmp X Y`            `== != < <= > >=` of (X,Y), hash agreement (`T` when equal, `-` otherwise),
+                       then the same seven for (Y,X)
+  `cmp3 X Y Z`         `<=` of (X,Y) (Y,Z) (X,Z), then `==` of the same pairs
+  `sorted L L'`        `sorted(L)` and whether `sorted(L')` is the same list
+  `roundtrip OBJ how`  the object rebuilt by copy / deepcopy / p0..p5, or `!tag`
+  objects: `A:ver:val` `N:ver:val:plen` `R:ver:lo:hi` (IPRange and IPGlob)
+           `S:[N:…,…]` (IPSet) `E:ver:val:dialect` (EUI) -/
 namespace NV.Driver.C12
-open NV NV.Proto
+open NV NV.Proto NV.Cmp
 
-def handle (_op : String) (_args : List String) : Option String := none
+def parseObj (tok : String) : Option Obj :=
+  match parseAddr tok with
+  | some a => some (.addr a)
+  | none => match parseNet tok with
+    | some n => some (.net n)
+    | none => (parseRng tok).map .rng
+
+def showObj : Obj → String
+  | .addr a => s!"A:{a.ver}:{a.val}"
+  | .net n => s!"N:{n.ver}:{n.val}:{n.plen}"
+  | .rng r => s!"R:{r.ver}:{r.lo}:{r.hi}"
+
+def flags (x y : Obj) : List String :=
+  [showBool (eq x y), showBool (ne x y), showBool (lt x y), showBool (le x y), showBool (gt x y),
+   showBool (ge x y), if eq x y then "T" else "-"]
+
+def parseHow (s : String) : Option How :=
+  if s == "copy" then some .copy
+  else if s == "deepcopy" then some .deepcopy
+  else if s.startsWith "p" then ((s.drop 1).toString.toNat?).map .pickle
+  else none
+
+def showR {α : Type} (f : α → String) : R α → String
+  | .ok a => f a
+  | .error e => showErr e
+
+def parseEui (tok : String) : Option Eui :=
+  match tok.splitOn ":" with
+  | ["E", a, b, c] => do pure ⟨← a.toNat?, ← b.toNat?, ← c.toNat?⟩
+  | _ => none
+
+def showNetTok (n : Net) : String := s!"N:{n.ver}:{n.val}:{n.plen}"
+
+/-- set contents are printed in (version, value, prefixlen) order: dict order is not modelled -/
+def sortForShow (l : List Net) : List Net :=
+  l.mergeSort (fun a b => tupleLe [a.ver, a.val, a.plen] [b.ver, b.val, b.plen])
+
+def handle (op : String) (args : List String) : Option String :=
+  match op, args with
+  | "cmp", [x, y] => do
+    let x ← parseObj x; let y ← parseObj y
+    pure (" ".intercalate (flags x y ++ flags y x))
+  | "cmp3", [x, y, z] => do
+    let x ← parseObj x; let y ← parseObj y; let z ← parseObj z
+    pure (" ".intercalate [showBool (le x y), showBool (le y z), showBool (le x z),
+      showBool (eq x y), showBool (eq y z), showBool (eq x z)])
+  | "sorted", [l, l'] => do
+    let l ← (← parseList l).mapM parseObj
+    let l' ← (← parseList l').mapM parseObj
+    pure (showList ((sortObjs l).map showObj) ++ " " ++ showBool (sortObjs l == sortObjs l'))
+  | "roundtrip", [o, how] => do
+    let how ← parseHow how
+    if o.startsWith "S:" then
+      let nets ← (← parseList (o.drop 2).toString).mapM parseNet
+      pure (showR (fun s => "S:" ++ showList ((sortForShow s).map showNetTok)) (roundtripSet how nets))
+    else if o.startsWith "E:" then
+      let e ← parseEui o
+      pure (showR (fun e => s!"E:{e.ver}:{e.val}:{e.dialect}") (roundtripEui how e))
+    else
+      match ← parseObj o with
+      | .addr a => pure (showR (fun a => showObj (.addr a)) (roundtripAddr how a))
+      | .net n => pure (showR (fun n => showObj (.net n)) (roundtripNet how n))
+      | .rng r => pure (showR (fun r => showObj (.rng r)) (roundtripRng how r))
+  | _, _ => none
 
 end NV.Driver.C12
